@@ -1890,18 +1890,26 @@ class MkcolMethod(Method):
             return Response(status=409, reason="Conflict")
         if base_content_type in ("text/xml", "application/xml"):
             propstat = []
-            for el in et:
-                if el.tag != "{DAV:}set":
-                    nonfatal_bad_request(f"Unknown tag {el.tag} in mkcol", app.strict)
-                    continue
-                propstat.extend(
-                    [
-                        ps
-                        async for ps in apply_modify_prop(
-                            el, href, resource, app.properties
+            try:
+                for el in et:
+                    if el.tag != "{DAV:}set":
+                        nonfatal_bad_request(
+                            f"Unknown tag {el.tag} in mkcol", app.strict
                         )
-                    ]
-                )
+                        continue
+                    propstat.extend(
+                        [
+                            ps
+                            async for ps in apply_modify_prop(
+                                el, href, resource, app.properties
+                            )
+                        ]
+                    )
+            except BaseException:
+                # RFC 5689, section 3: a failed extended MKCOL must not leave
+                # the collection behind
+                resource.destroy()
+                raise
             ret = ET.Element("{DAV:}mkcol-response")
             for propstat_el in propstat_as_xml(propstat):
                 ret.append(propstat_el)
